@@ -122,7 +122,15 @@ def run_call(d, obj=None):
 def outcome(d, obj=None):
     """JSON-able outcome: ['ok', value] | ['exc', type name, message]."""
     try:
-        return ["ok", norm_out(run_call(d, obj))]
+        v = run_call(d, obj)
+        out = ["ok", norm_out(v)]
+        if type(v) is list:
+            # the caller owns a returned list: what it does to it (sort, filter, pop) is not the library's business and must
+            # not show in any later answer
+            v.reverse()
+            del v[1:]
+            v.append("changed-by-caller")
+        return out
     except BaseException as e:  # noqa: BLE001 - the outcome of a failing call is its exception
         return ["exc", type(e).__name__, str(e)]
 
